@@ -1075,6 +1075,50 @@ Definition run_conc_fan (inp : list Z) : list Z :=
   | _ => bad_input
   end.
 
+(* ---- C10: threads on a MultiPort over EchoPorts, any mix of uses ---- *)
+Require Import Mido.Model.ConcMix.
+Fixpoint in_xops (n : nat) (l : list Z) : option (list xop * list Z) :=
+  match n with
+  | O => Some ([], l)
+  | S k =>
+      match l with
+      | 0 :: port :: r => match in_msg r with
+                          | Some (m, r1) => match in_xops k r1 with Some (os, r') => Some (XSend (Z.to_nat port) m :: os, r') | None => None end
+                          | None => None
+                          end
+      | 1 :: port :: b :: r => match in_xops k r with Some (os, r') => Some (XRecv (Z.to_nat port) (negb (b =? 0)) :: os, r') | None => None end
+      | 2 :: port :: r => match in_xops k r with Some (os, r') => Some (XIterP (Z.to_nat port) [] :: os, r') | None => None end
+      | _ => None
+      end
+  end.
+Fixpoint in_xprogs (n : nat) (l : list Z) : option (list (list xop) * list Z) :=
+  match n with
+  | O => Some ([], l)
+  | S k => match l with
+           | c :: r => match in_xops (Z.to_nat c) r with
+                       | Some (os, r1) => match in_xprogs k r1 with Some (ps, r') => Some (os :: ps, r') | None => None end
+                       | None => None
+                       end
+           | [] => None
+           end
+  end.
+Definition out_xthread (th : xthread) : list Z :=
+  (match xat th with XRaised e => [2; exn_code e] | XStart => (match xprog th with [] => [0; 0] | _ => [1; 0] end) | _ => [1; 0] end)
+  ++ zlen (xresults th) :: flat_map out_result (xresults th).
+(* [nsubs; nthreads; per thread: nops ops...; schedule...] -> per thread state and results; the deques of the MultiPort and of the sub-ports; sleeps *)
+Definition run_conc_mix (inp : list Z) : list Z :=
+  match inp with
+  | ns :: nt :: r =>
+      match in_xprogs (Z.to_nat nt) r with
+      | Some (progs, sched) =>
+          let '(s, ts) := xrun (map Z.to_nat sched) (xinit (Z.to_nat ns) (fun t => nth t progs [])) in
+          flat_map (fun t => out_xthread (ts t) ++ [-9]) (seq 0 (length progs))
+          ++ flat_map (fun i => out_msgs (xq s i)) (seq 0 (S (Z.to_nat ns))) ++ [Z.of_nat (xsleeps s)]
+      | None => bad_input
+      end
+  | _ => bad_input
+  end.
+
 (* ---- C11: close() from several threads ---- *)
 Require Import Mido.Model.ConcClose.
 (* [locking; nthreads; schedule...] -> [releases; closed; per thread: 1 when its close() has returned] *)
